@@ -37,8 +37,9 @@ acc C10-failed-call-after-removal-in-repeated-choice C10 articulations,dynamics,
 acc C10-metronome-refused-serialisation C10 metronome '*' "metronome: a refused to_string changes the later verdict / acceptance"
 acc C11-removal-leaves-matcher-flags C11 '*' '*' "remove(): force_validate / chosen_child / duplicated containers are not reset: an optional child added and removed is reported as required, alternatives stay blocked, serialisation verdict differs from a rebuilt twin"
 acc C12-first-fit-matcher-rejections C12 '*' '*' "children with a unique valid arrangement (or still compatible with the children held) are refused or misordered in types with repeated names / repeated groups: credit, harmony, key, lyric, metronome, note, time, interchangeable, part-list, score-part, sound, ornaments, direction-type"
-acc C14-forward-placement-lost C14 '*' '*' "deepcopy re-adds the children without their forward placement: copies of elements built with add_child(forward=k) serialise differently or refuse"
+acc C14-forward-placement-lost C14 '*' '*' "deepcopy is a rebuild of the element through the matcher: children are re-added without their forward placement (copies of elements built with add_child(forward=k) serialise differently or refuse), and where the first-fit matcher is order-sensitive (credit, lyric after an intelligent-choice re-attachment, part-list, key) the rebuilt copy arranges the same children differently or refuses them"
 acc C14-copy-rebuild-reorders-part-list C14 part-list 'copy-serialises-differently' "part-list: the copy is a rebuild through the first-fit matcher: after a removal inside the (part-group | score-part) repetition the original serialises score-part, part-group, ... while its copy comes out re-ordered (the C02 part-list root cause, met by the deep-alphabet exploration)"
+acc C14-copy-rebuild-rearranges-key C14 key 'copy-serialises-differently' "key: the copy is a rebuild through the order-sensitive first-fit matcher: an incomplete non-traditional key (key-accidental, key-accidental, key-alter) and its copy arrange the same children differently in the ordered view (thorough tier; the C12 key root cause)"
 acc C15-name-attribute-shadowed C15 bookmark,lyric,lyric-font,lyric-language,miscellaneous-field '*' "the 'name' attribute cannot be read or set by dot syntax: e.name is the element name property"
 acc C15-xlink-elements C15 link,part-link,opus '*' "link / part-link / opus: any attribute read or xml_* read-back raises AttributeError from the undeclared xlink attribute objects"
 acc C16-lyric-intelligent-choice-side-effect C16 lyric '*' "lyric: a successful to_string(intelligent_choice=True) re-attaches children and changes later results"
